@@ -91,6 +91,9 @@ var (
 	StorageChangeBuilder = NewChangeBuilder
 	ErrParentNotFound    = errors.New("parent object not found")
 	ErrDerivedParent     = errors.New("derived object cannot be a parent")
+	// ErrTreeStorageAlreadyDeleted is returned when a storage is created for an id that is already
+	// tombstoned (queued for deletion or deleted) in the head storage
+	ErrTreeStorageAlreadyDeleted = errors.New("tree storage already deleted")
 )
 
 func CreateStorage(ctx context.Context, root *treechangeproto.RawTreeChangeWithId, headStorage headstorage.HeadStorage, store anystore.DB) (Storage, error) {
@@ -111,6 +114,11 @@ func CreateStorageTx(ctx context.Context, root *treechangeproto.RawTreeChangeWit
 		id:          root.Id,
 		store:       store,
 		headStorage: headStorage,
+	}
+	// the tombstone is checked inside the creating transaction: callers check it before a remote fetch or
+	// right before calling us, and the deletion can be recorded in between
+	if entry, entryErr := headStorage.GetEntry(ctx, root.Id); entryErr == nil && entry.DeletedStatus != headstorage.DeletedStatusNotDeleted {
+		return nil, ErrTreeStorageAlreadyDeleted
 	}
 	builder := StorageChangeBuilder(crypto.NewKeyStorage(), root)
 	unmarshalled, err := builder.Unmarshall(root, true)
